@@ -1019,15 +1019,19 @@ Lemma land_mod64_16 b : N.land (b mod 64) 16 = N.land b 16.
 Proof. change 64 with (2 ^ 6). rewrite <- N.land_ones, <- N.land_assoc. reflexivity. Qed.
 
 (* the entry the library's iterator lists is an entry the decoder finds: same slots, kind, cluster, size *)
-Lemma listed_view_decoded oem ss es ls ev :
+Lemma listed_decoded_full oem ss es ls ev :
   dir_scan ss 0 [] false = (es, ls, []) -> Forall attrs_sane ss -> LfnSpec.listed_at oem true [] ss ev ->
-  exists e, In e es /\ Lfn.ev_raw_name ev = e_sfn e /\
+  exists e se, In e es /\ Lfn.ev_raw_name ev = e_sfn e /\
     Lfn.ev_begin ev / 32 = e_first_slot e /\ Lfn.ev_end ev / 32 = e_sfn_slot e + 1 /\
+    slot_decode (nth (N.to_nat (e_sfn_slot e)) ss []) = SFile se /\ sfn_is_volume se = false /\
+    nth 0 (se_name se) 0 <> 0 /\ nth 0 (se_name se) 0 <> 229 /\
+    e_attr e mod 64 = se_attrs se /\ e_size e = se_size se /\ e_cluster e = 0 + se_first_cluster_lo se /\
+    e_sfn e = se_name se /\
     e_is_dir e = Lfn.ev_is_dir ev /\ e_cluster e = Lfn.ev_cluster_lo ev /\ e_size e = Lfn.ev_size ev.
 Proof.
   intros H0 Hs HL.
-  destruct (listed_is_decoded false oem ss es ls ev H0 Hs HL) as (e & se & Hin & Hn & Hb & He & Hdec & _ & _ & _ & Ha & Hsz & Hcl & _).
-  exists e. split; [exact Hin|]. split; [exact Hn|]. split; [exact Hb|]. split; [exact He|].
+  destruct (listed_is_decoded false oem ss es ls ev H0 Hs HL) as (e & se & Hin & Hn & Hb & He & Hdec & Hvol & F0 & F5 & Ha & Hsz & Hcl & Hnm).
+  exists e, se. do 12 (split; [assumption|]).
   destruct HL as (pre & bs & post & se0 & Hss & _ & Hdec0 & _ & _ & Hev).
   assert (se0 = se) as ->.
   { rewrite Hev in He. unfold LfnSpec.entry_at, Lfn.mk_view in He. cbn [Lfn.ev_end] in He.
@@ -1039,6 +1043,17 @@ Proof.
   rewrite Hev. unfold LfnSpec.entry_at, Lfn.mk_view. cbn [Lfn.ev_is_dir Lfn.ev_cluster_lo Lfn.ev_size].
   split; [|split; [rewrite Hcl; lia|exact Hsz]].
   unfold e_is_dir, sfn_is_dir, ATTR_DIRECTORY. rewrite <- Ha, land_mod64_16. reflexivity.
+Qed.
+
+Lemma listed_view_decoded oem ss es ls ev :
+  dir_scan ss 0 [] false = (es, ls, []) -> Forall attrs_sane ss -> LfnSpec.listed_at oem true [] ss ev ->
+  exists e, In e es /\ Lfn.ev_raw_name ev = e_sfn e /\
+    Lfn.ev_begin ev / 32 = e_first_slot e /\ Lfn.ev_end ev / 32 = e_sfn_slot e + 1 /\
+    e_is_dir e = Lfn.ev_is_dir ev /\ e_cluster e = Lfn.ev_cluster_lo ev /\ e_size e = Lfn.ev_size ev.
+Proof.
+  intros H0 Hs HL. destruct (listed_decoded_full oem ss es ls ev H0 Hs HL)
+    as (e & se & A1 & A2 & A3 & A4 & _ & _ & _ & _ & _ & _ & _ & _ & A5 & A6 & A7).
+  exists e. repeat (split; [assumption|]). assumption.
 Qed.
 
 Lemma remove_entry_full upper oem ss name ne es ls ss' :
@@ -1129,4 +1144,288 @@ Proof.
     destruct (is_special ev); [reflexivity|]. destruct (Lfn.ev_is_dir ev && false); [reflexivity|].
     cbn [fst] in Hr'. congruence. }
   exact (put_back_same fold im Hg).
+Qed.
+
+(* ---------------------------------------------------------------- (c) rename in place *)
+Lemma rename_in_dir_fixed_failed_same upper oem free ss src dst r ss' : len_N ss < 134217728 ->
+  rename_in_dir upper oem FixedRoot free ss src dst = (r, ss') -> r <> Ok tt -> ss' = ss.
+Proof.
+  intros Hb H Hr. unfold rename_in_dir, lift in H.
+  destruct (find_entry upper oem ss src None) as [ev| | |]; try (injection H as _ <-; reflexivity).
+  destruct (is_special ev); [injection H as _ <-; reflexivity|].
+  assert (forall a, rename_rewrite FixedRoot free ss ev dst a = (r, ss') -> ss' = ss) as Hrw.
+  { intros a Ha. unfold rename_rewrite in Ha.
+    destruct (write_entry FixedRoot free ss dst (renamed (entry_data ss ev) a)) as [w ss1] eqn:W.
+    destruct w as [rg| | |]; cbn [lift] in Ha.
+    - injection Ha as <- _. exfalso. apply Hr. reflexivity.
+    - injection Ha as _ <-. apply (write_entry_fixed_root_full_unchanged free ss dst _ _ ss1 Hb W). intros; discriminate.
+    - injection Ha as _ <-. apply (write_entry_fixed_root_full_unchanged free ss dst _ _ ss1 Hb W). intros; discriminate.
+    - injection Ha as _ <-. apply (write_entry_fixed_root_full_unchanged free ss dst _ _ ss1 Hb W). intros; discriminate. }
+  destruct (check_for_existence upper oem ss dst None) as [[dv|a]| | |]; try (injection H as _ <-; reflexivity).
+  - destruct (negb (Lfn.ev_end ev =? Lfn.ev_end dv)); [injection H as _ <-; reflexivity|].
+    destruct (has_exact_name ev dst); [injection H as _ <-; reflexivity|]. exact (Hrw _ H).
+  - exact (Hrw _ H).
+Qed.
+
+Theorem vol_rename_failed_unchanged fold upper oem im src dst r im' : fixed_root_geom (parse_geom im) ->
+  vol_rename_in_root upper oem im src dst = Some (r, im') -> r <> Ok tt ->
+  img_same im im' /\ parse_geom im' = parse_geom im /\ abs im' = abs im /\ Wf.wf_issues fold im' = Wf.wf_issues fold im /\
+  count_free (parse_geom im) im' = count_free (parse_geom im) im.
+Proof.
+  intros Hg H Hr.
+  assert (vol_root_apply im (fun ss => rename_in_dir upper oem FixedRoot 0 ss src dst) = (r, im')) as H'.
+  { unfold vol_rename_in_root in H. destruct (root_lookup upper oem im src) as [ev| | |]; try congruence.
+    destruct (Lfn.ev_is_dir ev); [discriminate|congruence]. }
+  rewrite vol_root_apply_eq in H'.
+  destruct (rename_in_dir upper oem FixedRoot 0 (root_region_slots (parse_geom im) im) src dst) as [r0 ss'] eqn:E.
+  cbn [fst snd] in H'. injection H' as -> <-.
+  rewrite (rename_in_dir_fixed_failed_same _ _ _ _ _ _ _ _ (root_len_bound _ im (fg_root _ Hg)) E Hr).
+  exact (put_back_same fold im Hg).
+Qed.
+
+(* the write-then-delete tail of rename at the slot layer, list level: the decoding loses exactly the source entry and gains
+   exactly one entry (somewhere: first fit) with the new long name, the short name [a], and the source's attributes, size and
+   first cluster; all other entries keep their relative order *)
+Lemma rename_rewrite_lists k free ss ev dst a es ls ss' e se :
+  dir_scan ss 0 [] false = (es, ls, []) -> len_N ss < 134217728 -> Forall bytes_ok ss ->
+  In e es -> Lfn.ev_begin ev / 32 = e_first_slot e -> Lfn.ev_end ev / 32 = e_sfn_slot e + 1 ->
+  slot_decode (nth (N.to_nat (e_sfn_slot e)) ss []) = SFile se -> sfn_is_volume se = false ->
+  e_attr e mod 64 = se_attrs se -> e_size e = se_size se -> e_cluster e = 0 + se_first_cluster_lo se ->
+  length a = 11%nat -> nth 0 a 0 <> 0 -> nth 0 a 0 <> 229 ->
+  rename_rewrite k free ss ev dst a = (Ok tt, ss') ->
+  exists x y c d ne,
+    es = x ++ e :: y /\ x ++ y = c ++ d /\ dir_scan ss' 0 [] false = (c ++ ne :: d, ls, []) /\
+    e_lfn ne = (if is_dot_name dst then [] else utf16_encode dst) /\ e_lfn_ok ne = true /\ e_sfn ne = a /\
+    e_attr ne = e_attr e mod 64 /\ e_size ne = e_size e /\ e_cluster ne = e_cluster e.
+Proof.
+  intros H0 Hb Hby Hin Hbg Hen Hdec Hvol Hat Hsz Hcl L1 L2 L3 H. unfold rename_rewrite in H.
+  assert (entry_data ss ev = se) as Ed.
+  { unfold entry_data, DIR_ENTRY_SIZE. rewrite Hen. replace (e_sfn_slot e + 1 - 1) with (e_sfn_slot e) by lia.
+    rewrite Hdec. reflexivity. }
+  assert (forall s1, delete_entry s1 ev = mark_deleted s1 (e_first_slot e) (e_sfn_slot e + 1)) as Edel
+    by (intros s1; unfold delete_entry, DIR_ENTRY_SIZE; rewrite Hbg, Hen; reflexivity).
+  rewrite Ed in H.
+  destruct (write_entry k free ss dst (renamed se a)) as [w ss2] eqn:W.
+  destruct w as [[p q]| | |]; cbn [lift] in H; try discriminate. rewrite Edel in H. injection H as <-.
+  assert (bytes_ok (nth (N.to_nat (e_sfn_slot e)) ss [])) as Hbs.
+  { destruct (nth_in_or_default (N.to_nat (e_sfn_slot e)) ss []) as [I|D].
+    - rewrite Forall_forall in Hby. apply Hby. exact I.
+    - rewrite D. constructor. }
+  assert (sfn_live (renamed se a)) as Hlive.
+  { constructor; [apply (decoded_fields_ok _ _ Hbs Hdec a L1)| | |]; unfold renamed; cbn [se_name se_attrs]; try assumption.
+    unfold sfn_is_volume, ATTR_VOLUME_ID in Hvol. apply negb_false_iff in Hvol. apply N.eqb_eq in Hvol. exact Hvol. }
+  destruct (rename_slots_refines k free false ss dst (renamed se a) es ls e p q ss2 H0 Hb Hin Hlive W)
+    as (x & y & c & d & ne & G1 & G2 & G3 & G4 & G5 & G6 & G7 & G8 & G9 & _). cbn zeta in G3.
+  cbn [renamed se_name se_attrs se_size se_first_cluster_hi se_first_cluster_lo] in *.
+  exists x, y, c, d, ne. do 6 (split; [assumption|]).
+  split; [rewrite G7; symmetry; exact Hat|]. split; [rewrite G8; symmetry; exact Hsz|]. rewrite G9, Hcl. reflexivity.
+Qed.
+
+(* rename_in_dir on success, list level (no assumption on duplicate short names) *)
+Lemma rename_in_dir_lists upper oem k free ss src dst es ls ss' :
+  dir_scan ss 0 [] false = (es, ls, []) -> len_N ss < 134217728 -> Forall attrs_sane ss -> Forall bytes_ok ss ->
+  Forall len32 ss ->
+  rename_in_dir upper oem k free ss src dst = (Ok tt, ss') ->
+  exists ev e,
+    find_entry upper oem ss src None = Ok ev /\ matches upper oem src ev = true /\ In e es /\
+    Lfn.ev_raw_name ev = e_sfn e /\ e_is_dir e = Lfn.ev_is_dir ev /\
+    ((exists dv, check_for_existence upper oem ss dst None = Ok (Exists dv) /\ Lfn.ev_end dv = Lfn.ev_end ev /\
+                 has_exact_name ev dst = true /\ ss' = ss) \/
+     (exists x y c d ne,
+        es = x ++ e :: y /\ x ++ y = c ++ d /\ dir_scan ss' 0 [] false = (c ++ ne :: d, ls, []) /\
+        e_lfn ne = (if is_dot_name dst then [] else utf16_encode dst) /\ e_lfn_ok ne = true /\
+        e_attr ne = e_attr e mod 64 /\ e_size ne = e_size e /\ e_cluster ne = e_cluster e /\
+        ((exists a, check_for_existence upper oem ss dst None = Ok (Fresh a) /\ e_sfn ne = a /\ sfn_legal_b a = true /\
+                    ~ In a (map e_sfn es)) \/
+         (exists dv, check_for_existence upper oem ss dst None = Ok (Exists dv) /\ Lfn.ev_end dv = Lfn.ev_end ev /\
+                     has_exact_name ev dst = false /\ e_sfn ne = e_sfn e)))).
+Proof.
+  intros H0 Hb Hs Hby H32 H. unfold rename_in_dir, lift in H.
+  destruct (find_entry upper oem ss src None) as [ev| | |] eqn:F; try discriminate.
+  destruct (is_special ev); [discriminate|].
+  destruct (find_entry_listed _ _ _ _ _ _ F) as [HLi HM].
+  destruct (listed_decoded_full oem ss es ls ev H0 Hs HLi)
+    as (e & se & Hin & Hn & Hbg & Hen & Hdec & Hvol & Hf0 & Hf5 & Hat & Hsz & Hcl & Hnm & Hdir & _ & _).
+  exists ev, e. split; [reflexivity|]. split; [exact HM|]. split; [exact Hin|]. split; [exact Hn|]. split; [exact Hdir|].
+  destruct (check_for_existence upper oem ss dst None) as [[dv|a]| | |] eqn:C; try discriminate.
+  - destruct (Lfn.ev_end ev =? Lfn.ev_end dv) eqn:EE; cbn [negb] in H; [|discriminate].
+    apply N.eqb_eq in EE.
+    destruct (has_exact_name ev dst) eqn:HX.
+    + injection H as <-. left. exists dv. repeat split; congruence.
+    + right. rewrite Hn in H.
+      pose proof (decoded_sfn_length false ss es ls [] e H0 H32 Hin) as L1.
+      destruct (rename_rewrite_lists k free ss ev dst (e_sfn e) es ls ss' e se H0 Hb Hby Hin Hbg Hen Hdec Hvol Hat Hsz Hcl L1)
+        as (x & y & c & d & ne & G1 & G2 & G3 & G4 & G5 & G6 & G7 & G8 & G9); try (rewrite Hnm; assumption); try assumption.
+      exists x, y, c, d, ne. do 8 (split; [assumption|]). right. exists dv. repeat split; congruence.
+  - right. destruct (check_fresh_inv _ _ _ _ _ _ C) as (_ & HL & l & DE & _ & AF).
+    pose proof (sfn_unique _ _ _ _ AF) as HU. rewrite (dir_entries_sfns false oem ss l es ls [] DE H0) in HU.
+    destruct (sfn_legal_first a HL) as [L1 [L2 L3]].
+    destruct (rename_rewrite_lists k free ss ev dst a es ls ss' e se H0 Hb Hby Hin Hbg Hen Hdec Hvol Hat Hsz Hcl L1 L2 L3 H)
+      as (x & y & c & d & ne & G1 & G2 & G3 & G4 & G5 & G6 & G7 & G8 & G9).
+    exists x, y, c, d, ne. do 8 (split; [assumption|]). left. exists a. repeat split; assumption.
+Qed.
+
+(* chain and content the decoder gives a plain file: functions of the image (FAT, data) and of the entry's cluster and size only *)
+Definition file_chain (g : geom) (im : image) (e : entry) : option (list N) :=
+  if e_cluster e =? 0 then None else chain_from g im (e_cluster e) (chain_fuel g).
+Definition file_content (g : geom) (im : image) (e : entry) : list N :=
+  match file_chain g im e with Some l => firstn (N.to_nat (e_size e)) (chain_bytes g im l) | None => [] end.
+
+Lemma node_of_file g im d e : e_is_dot e = false -> e_is_dir e = false ->
+  node_of g im d e = NFile e (file_chain g im e) (file_content g im e).
+Proof. intros H1 H2. unfold node_of, file_content, file_chain. rewrite H1, H2. reflexivity. Qed.
+
+Lemma file_same g im e e' : e_cluster e' = e_cluster e -> e_size e' = e_size e ->
+  file_chain g im e' = file_chain g im e /\ file_content g im e' = file_content g im e.
+Proof. intros H1 H2. unfold file_content, file_chain. rewrite H1, H2. split; reflexivity. Qed.
+
+(* (c) rename of a file inside the root.  On success either nothing happened (the destination is the stored spelling of the
+   source's own name), or the decoded root lost exactly the node of the source entry and gained exactly one node - somewhere
+   (first fit), all other nodes exactly as before and in the same relative order -: the same cluster chain and the same
+   content (the FAT and the data area are untouched and the new entry carries the source's first cluster and size), the
+   source's attributes, the new long name; its short name is a fresh legal alias, or - when only the spelling of the name
+   changes - the source's own; no issue; labels, geometry, status byte as before. *)
+Theorem vol_rename_decodes upper oem im src dst im' :
+  fixed_root_geom (parse_geom im) -> v_root_issues (abs im) = [] ->
+  Forall attrs_sane (root_region_slots (parse_geom im) im) -> Forall bytes_ok (root_region_slots (parse_geom im) im) ->
+  vol_rename_in_root upper oem im src dst = Some (Ok tt, im') ->
+  exists ev,
+    root_lookup upper oem im src = Ok ev /\ matches upper oem src ev = true /\ Lfn.ev_is_dir ev = false /\
+    ((exists dv, check_for_existence upper oem (root_region_slots (parse_geom im) im) dst None = Ok (Exists dv) /\
+                 Lfn.ev_end dv = Lfn.ev_end ev /\ has_exact_name ev dst = true /\
+                 img_same im im' /\ abs im' = abs im) \/
+     (exists nx n ny nc nd n' ch content,
+        v_root (abs im) = nx ++ n :: ny /\ nx ++ ny = nc ++ nd /\ v_root (abs im') = nc ++ n' :: nd /\
+        e_sfn (node_entry n) = Lfn.ev_raw_name ev /\ e_is_dir (node_entry n) = false /\ e_is_dir (node_entry n') = false /\
+        (e_is_dot (node_entry n) = false -> n = NFile (node_entry n) ch content) /\
+        (e_is_dot (node_entry n') = false -> n' = NFile (node_entry n') ch content) /\
+        e_lfn (node_entry n') = (if is_dot_name dst then [] else utf16_encode dst) /\ e_lfn_ok (node_entry n') = true /\
+        e_attr (node_entry n') = e_attr (node_entry n) mod 64 /\
+        e_size (node_entry n') = e_size (node_entry n) /\ e_cluster (node_entry n') = e_cluster (node_entry n) /\
+        ((exists a, check_for_existence upper oem (root_region_slots (parse_geom im) im) dst None = Ok (Fresh a) /\
+                    e_sfn (node_entry n') = a /\ sfn_legal_b a = true /\
+                    ~ In a (map e_sfn (map node_entry (v_root (abs im))))) \/
+         (exists dv, check_for_existence upper oem (root_region_slots (parse_geom im) im) dst None = Ok (Exists dv) /\
+                     Lfn.ev_end dv = Lfn.ev_end ev /\ has_exact_name ev dst = false /\
+                     e_sfn (node_entry n') = e_sfn (node_entry n))) /\
+        v_root_issues (abs im') = [] /\ v_labels (abs im') = v_labels (abs im) /\
+        v_geom (abs im') = v_geom (abs im) /\ v_status (abs im') = v_status (abs im))).
+Proof.
+  intros Hg Hiss Hsane Hby H. set (g := parse_geom im) in *.
+  destruct (abs_scan_of im (fg_bits g Hg)) as (es & ls & iss & Hscan & Habs). fold g in Hscan, Habs.
+  rewrite Habs in Hiss. cbn [abs_fixed v_root_issues] in Hiss. subst iss.
+  unfold vol_rename_in_root, root_lookup in H. fold g in H. unfold root_lookup. fold g.
+  destruct (rename_in_dir upper oem FixedRoot 0 (root_region_slots g im) src dst) as [r0 ss'] eqn:E.
+  assert (r0 = Ok tt /\ im' = put_root_slots g im ss' /\
+          forall ev, find_entry upper oem (root_region_slots g im) src None = Ok ev -> Lfn.ev_is_dir ev = false) as (-> & -> & Hguard).
+  { rewrite vol_root_apply_eq in H. fold g in H. rewrite E in H. cbn [fst snd] in H.
+    destruct (find_entry upper oem (root_region_slots g im) src None) as [ev| | |] eqn:F.
+    - destruct (Lfn.ev_is_dir ev) eqn:D; [discriminate|].
+      injection H as -> <-. split; [reflexivity|]. split; [reflexivity|]. intros ev' Hev'. injection Hev' as <-. exact D.
+    - injection H as -> <-. split; [reflexivity|]. split; [reflexivity|]. intros; discriminate.
+    - injection H as -> <-. split; [reflexivity|]. split; [reflexivity|]. intros; discriminate.
+    - injection H as -> <-. split; [reflexivity|]. split; [reflexivity|]. intros; discriminate. }
+  pose proof (proj1 (root_region_shape g im)) as Hsh0.
+  pose proof (rename_in_dir_fixed_shape _ _ _ _ _ _ _ _ _ Hsh0 E) as Hsh.
+  destruct (rename_in_dir_lists upper oem FixedRoot 0 _ src dst es ls ss' Hscan (root_len_bound g im (fg_root g Hg)) Hsane Hby (proj2 Hsh0) E)
+    as (ev & e & F & M & Hin & Hn & Hd & Hcase).
+  pose proof (Hguard ev F) as G1.
+  exists ev. split; [exact F|]. split; [exact M|]. split; [exact G1|].
+  destruct Hcase as [(dv & C & EE & HX & ->)|(x & y & c & d & ne & E1 & E2 & E3 & L1 & L2 & A1 & A2 & A3 & Hsub)].
+  - left. exists dv. split; [exact C|]. split; [exact EE|]. split; [exact HX|].
+    destruct (put_back_same (fun l => l) im Hg) as (S1 & _ & S3 & _). fold g in S1, S3. split; [exact S1|exact S3].
+  - right.
+    destruct (abs_put_root im ss' _ _ _ Hg Hsh E3) as [_ Habs']. fold g in Habs'.
+    rewrite Habs, Habs'. unfold abs_fixed. cbn [v_root v_root_issues v_labels v_geom v_status].
+    change MAX_DEPTH with (S 23). rewrite !decode_entries_S.
+    assert (e_is_dir e = false) as De by (rewrite Hd; exact G1).
+    assert (e_is_dir ne = false) as Dne.
+    { unfold e_is_dir in *. rewrite A1, land_mod64_16. exact De. }
+    destruct (file_same g im e ne A3 A2) as [FC FN].
+    exists (map (node_of g im 23) x), (node_of g im 23 e), (map (node_of g im 23) y),
+           (map (node_of g im 23) c), (map (node_of g im 23) d), (node_of g im 23 ne),
+           (file_chain g im e), (file_content g im e).
+    rewrite !node_entry_of.
+    split; [rewrite E1, map_app; reflexivity|].
+    split; [rewrite <- !map_app, E2; reflexivity|].
+    split; [rewrite map_app; reflexivity|].
+    split; [symmetry; exact Hn|]. split; [exact De|]. split; [exact Dne|].
+    split; [intros Hdot; apply node_of_file; assumption|].
+    split; [intros Hdot; rewrite <- FC, <- FN; apply node_of_file; assumption|].
+    split; [exact L1|]. split; [exact L2|]. split; [exact A1|]. split; [exact A2|]. split; [exact A3|].
+    split.
+    { rewrite map_node_entry.
+      destruct Hsub as [(a & C & S1 & S2 & S3)|(dv & C & EE & HX & S1)].
+      - left. exists a. repeat split; assumption.
+      - right. exists dv. repeat split; assumption. }
+    repeat split; reflexivity.
+Qed.
+
+(* ---------------------------------------------------------------- create succeeds in a root that has room (non-vacuity of the
+   success premise of the theorems above) *)
+Lemma stamp_create_ok now : TimeProofs.datetime_valid now = true -> exists st, stamp_create now = Ok st.
+Proof.
+  intros Hv. unfold TimeProofs.datetime_valid in Hv. apply andb_true_iff in Hv. destruct Hv as [Hd Ht].
+  unfold stamp_create, st_set_created, st_set_accessed, st_set_modified.
+  rewrite (TimeProofs.date_encode_arith _ Hd), (TimeProofs.time_encode_arith _ Ht). cbn [bind]. eexists. reflexivity.
+Qed.
+
+(* an accepted name needs at most 20 long-name slots and one short slot *)
+Lemma entry_run_le_21 n e : validate_long_name n = Ok tt -> sfn_fields_ok e -> len_N (entry_run n e) <= 21.
+Proof.
+  intros V F. unfold entry_run, write_entry_lfn_slots, len_N. rewrite app_length, map_length. cbn [length].
+  destruct (is_dot_name n) eqn:D; [cbn [length]; lia|].
+  destruct (written_run_valid n e 0 false V D F) as [RV _]. cbv zeta in RV. unfold run_valid in RV.
+  set (L := map lfn_encode (lfn_entries (utf16_encode n) (lfn_checksum (se_name e)))) in *.
+  assert (length (lfn_entries (utf16_encode n) (lfn_checksum (se_name e))) = length L) as -> by (unfold L; rewrite map_length; reflexivity).
+  rewrite rev_involutive in RV. destruct L as [|f r] eqn:EL; [cbn [length]; lia|].
+  rewrite !andb_true_iff in RV. destruct RV as [[[[[[[[_ R2] _] _] _] _] _] _] _].
+  apply N.leb_le in R2. unfold len_N in R2. rewrite rev_length in R2. lia.
+Qed.
+
+Theorem vol_create_succeeds upper oem im name now :
+  fixed_root_geom (parse_geom im) -> v_root (abs im) = [] -> v_root_issues (abs im) = [] ->
+  (forall k, (1 <= k < root_slot_count (parse_geom im))%nat -> byte_at (nth k (root_region_slots (parse_geom im) im) []) 0 = 0) ->
+  22 <= g_root_entries (parse_geom im) ->
+  validate_long_name name = Ok tt -> TimeProofs.datetime_valid now = true ->
+  exists range im', vol_create_empty_file_root upper oem im name now = (Ok (Some range), im').
+Proof.
+  intros Hg Hroot Hiss Hzero Hroom V Hnow. set (g := parse_geom im) in *.
+  destruct (abs_scan_of im (fg_bits g Hg)) as (es & ls & iss & Hscan & Habs). fold g in Hscan, Habs.
+  rewrite Habs in Hroot, Hiss. cbn [abs_fixed v_root v_root_issues] in Hroot, Hiss. subst iss.
+  change MAX_DEPTH with (S 23) in Hroot. rewrite decode_entries_S in Hroot. apply map_eq_nil in Hroot. subst es.
+  set (ss := root_region_slots g im) in *.
+  destruct (root_region_shape g im) as [[S1 S2] _]. fold ss in S1, S2.
+  (* the existence check finds nothing and produces an alias *)
+  assert (dir_entries oem ss = Ok []) as DE.
+  { unfold dir_entries. rewrite LfnProofs.read_dir_sound. f_equal.
+    pose proof (dir_entries_sfns false oem ss _ [] ls [] (LfnProofs.read_dir_sound Lfn.VecBuf oem true ss) Hscan) as Hm.
+    cbn [map] in Hm. apply map_eq_nil in Hm. exact Hm. }
+  destruct (gen_terminates name [] V ltac:(cbn [length]; lia)) as [a AF].
+  pose proof (AF : alias_for name [] 1%nat = Ok a) as AF1.
+  assert (check_for_existence upper oem ss name (Some false) = Ok (Fresh a)) as C.
+  { unfold check_for_existence. rewrite V. cbn [bind]. rewrite DE. cbn [bind find].
+    change (alias_for name (map Lfn.ev_raw_name []) (S (length (@nil Lfn.entry_view) / 9))) with (alias_for name [] 1%nat).
+    rewrite AF1. reflexivity. }
+  pose proof (sfn_legal _ _ _ _ AF1) as HL.
+  destruct (stamp_create_ok now Hnow) as [st ST].
+  pose proof (create_sfn_entry_live false a 0 None st HL ltac:(lia) eq_refl (stamp_create_ranges now st Hnow ST)) as Hlive.
+  set (e := create_sfn_entry false a 0 None st) in *.
+  assert (len_N ss < 134217728) as Hb by (apply root_len_bound; exact (fg_root g Hg)).
+  assert (exists range ss', write_entry FixedRoot 0 ss name e = (Ok range, ss')) as (range & ss' & W).
+  { destruct (write_entry_fixed_root_total 0 ss name e Hb) as [H|[(x & Vx & _)|(_ & _ & p & pre & mid & post & FS & Hfull)]];
+      [exact H|congruence|exfalso].
+    destruct FS as [Hsplit Hp Hpre _ _].
+    pose proof (entry_run_le_21 name e V (sl_fields e Hlive)) as Hnum.
+    assert (len_N ss = g_root_entries g) as Hlen by (unfold len_N; rewrite S1; unfold root_slot_count; lia).
+    assert (p <= 1) as Hp1.
+    { destruct (N.le_gt_cases p 1) as [|Hgt]; [assumption|exfalso].
+      assert (1 < length pre)%nat as Hl by (unfold len_N in Hp; lia).
+      assert (nonend (nth 1 pre [])) as Hne by (rewrite Forall_forall in Hpre; apply Hpre; apply nth_In; exact Hl).
+      apply Hne. rewrite <- (app_nth1 pre (mid ++ post) [] Hl), <- Hsplit.
+      apply Hzero. unfold root_slot_count. lia. }
+    lia. }
+  exists range, (put_root_slots g im ss').
+  unfold vol_create_empty_file_root. rewrite vol_root_apply_eq. fold g. fold ss.
+  unfold create_entry, lift. rewrite C, ST. fold e. rewrite W. reflexivity.
 Qed.
